@@ -67,6 +67,12 @@ func c18Render(items []c18Item) string {
 var c18Keys = []string{"debug", "net_udp_port", "tx.max_count", "hosts", "rate", "trace_ignore_set", "name", "log_level", "a.b.c", "limit64"}
 
 func c18Value() string {
+	if simrt.Chance(1, 8) {
+		// non-ASCII values: the properties syntax (UTF-8) allows them; several runes share their
+		// low byte with ASCII delimiters (U+042C, U+AC2C, U+012C end in 0x2C = ',')
+		return []string{"서울,갬성,부산", "КАЗАНЬ,ТВЕРЬ", "6600,Ĭ6601,6602", "naïve café", "値=テスト", "a,Ь,b", "12,갬,34",
+			"Ĭ", "über:straße"}[simrt.Choose(9)]
+	}
 	switch simrt.Choose(14) {
 	case 0:
 		return strconv.Itoa(simrt.Choose(100000))
